@@ -341,4 +341,51 @@ theorem DObj.solve_list (o : DObj K) (a : DArgs K) (h : (o.solve a).2 = none) :
           simp only [hnn, hr, hnl, hne, ↓reduceIte, Bool.false_eq_true]
           exact hnl.symm
 
+/-! ### non-vacuity -/
+
+section examples
+
+/-- the 3-4-5 rotation about z. -/
+def exT : M3 ℚ := ⟨⟨3/5, -4/5, 0⟩, ⟨4/5, 3/5, 0⟩, ⟨0, 0, 1⟩⟩
+
+example : M3.mul exT exT.transpose = M3.one := by decide +kernel
+
+/-- `givenP_axes_roundtrip` at work: two atoms, their p sets expressed in the rotated frame and handed over with
+    `axes = exT` come back as they are in the system's frame. -/
+example :
+    (givenP 2 (.nested ([[⟨5, 0, 0⟩, ⟨0, 5, 1⟩], [⟨0, 0, 2⟩]].map (transformP exT.transpose))) (some exT)).map
+      (fun pv => [pv 0, pv 1]) = some [[(⟨5, 0, 0⟩ : V3 ℚ), ⟨0, 5, 1⟩], [⟨0, 0, 2⟩]] := by decide +kernel
+
+/-- the WRONG transformation (`np.dot(p, T)` = `Tᵀ p`) does not give them back. -/
+example : transformP exT.transpose (transformP exT.transpose [(⟨5, 0, 0⟩ : V3 ℚ)]) ≠ [⟨5, 0, 0⟩] := by decide +kernel
+
+def exIn : SIn ℚ := ⟨⟨⟨⟨4, 0, 0⟩, ⟨0, 4, 0⟩, ⟨0, 0, 4⟩⟩, true, true, true⟩, 1, fun _ => ⟨0, 0, 0⟩, fun _ => [], some (fun _ => []), 27, 9/10⟩
+def exStale : Payload ℚ := .mats [⟨⟨1, 2, 3⟩, ⟨2, 5, 6⟩, ⟨3, 6, 9⟩⟩]
+/-- an object whose cached strain belongs to other inputs (e.g. the p vectors were replaced after it was read). -/
+def exObj : SObj ℚ := ⟨exIn, setCache (fun _ => none) .strain exStale⟩
+def exMag0 : V3 ℚ → ℚ := fun _ => 1
+
+/-- as in the real class, a read WITHOUT `solve_G` returns the cached (stale) value … -/
+example : (exObj.read exMag0 10 .strain).2 = some exStale := by decide +kernel
+/-- … and after `solve_G` the same read returns the value of the current inputs (hypothesis of
+    `solve_coherent` / `reads_after_solve` satisfied: `solve` succeeded). -/
+example : (exObj.solve exMag0 10 none).2 = true ∧
+    (((exObj.solve exMag0 10 none).1.reads exMag0 10 [.strain, .inv1, .G]).2 =
+      [some (.mats [zeroM]), some (.nums [0]), some (.mats [M3.one])]) := by decide +kernel
+/-- without p vectors `solve_G` refuses. -/
+example : ((SObj.fresh { exIn with pvec := none }).solve exMag0 10 none).2 = false := by decide +kernel
+
+def exSys (x : ℚ) : Sys ℚ := ⟨⟨⟨⟨4, 0, 0⟩, ⟨0, 4, 0⟩, ⟨0, 0, 4⟩⟩, true, true, true⟩, 2, fun i => if i = 0 then ⟨0, 0, 0⟩ else ⟨x, 0, 0⟩⟩
+def exD : DObj ℚ := ⟨exSys 1, exSys 1, 1, none, some [⟨9, 9, 9⟩]⟩
+
+/-- hypotheses of `DObj.solve_current` / `solve_forgets` are satisfiable; an atom with ONE neighbour and one with
+    NONE: one stored vector, `u_j - u_i`. -/
+example : (exD.solve ⟨none, some (exSys (3/2)), some [[1], []], none, some 0⟩).2 = none ∧
+    (exD.solve ⟨none, some (exSys (3/2)), some [[1], []], none, some 0⟩).1.dd = some [⟨1/2, 0, 0⟩] := by decide +kernel
+/-- no list and no cutoff, nothing stored: `ValueError`; `reference = 2`: `AssertionError`. -/
+example : (exD.solve ⟨none, none, none, none, none⟩).2 = some .value ∧
+    (exD.solve ⟨none, none, some [[1], []], none, some 2⟩).2 = some .assert := by decide +kernel
+
+end examples
+
 end Atomman.C17
